@@ -24,6 +24,7 @@ def main(tier, seed):
     rep = profcheck.run(PROP, tier, seed, plan, feature=throws)
     bins = [("dev", vlib.build_harness("dev")), ("release", vlib.build_harness("release"))]
     profcheck.run_scenarios(rep, "exception", scenarios.exception_scenarios(), bins, PROP)
+    profcheck.run_scenarios(rep, "exitpaths", scenarios.exit_path_scenarios(), bins, PROP)
     rep.coverage["exhaustive"] = True
     rep.coverage["rule"] = ("programs nesting try/catch/finally with loops and functions, explicit throws, failing built-in operations and throws "
                             "from callees, every exit path from every block; the reference machine delivers completions structurally (innermost "
